@@ -35,6 +35,7 @@ import (
 	"github.com/foxcpp/maddy/framework/config"
 	tls2 "github.com/foxcpp/maddy/framework/config/tls"
 	"github.com/foxcpp/maddy/framework/log"
+	"github.com/foxcpp/maddy/framework/module"
 	smtpendp "github.com/foxcpp/maddy/internal/endpoint/smtp"
 	"github.com/foxcpp/maddy/verifharness/authkit"
 	"github.com/foxcpp/maddy/verifharness/vtrace"
@@ -63,6 +64,8 @@ type RowOut struct {
 	Ccert    bool     `json:"ccert"`
 	Msg      string   `json:"msg,omitempty"`
 }
+
+var rowInst int
 
 var versIDs = []uint16{tls.VersionTLS10, tls.VersionTLS11, tls.VersionTLS12, tls.VersionTLS13}
 
@@ -258,6 +261,24 @@ func runServerRow(in RowIn, mat *rowMaterial) (RowOut, error) {
 		head = "tls"
 	case "filedir":
 		head = "tls"
+	case "named", "namedmis":
+		// a top-level configuration block, as maddy.go registers it (initialised on first reference)
+		rowInst++
+		name := fmt.Sprintf("x11rows_%d_%d", os.Getpid(), rowInst)
+		btext := "certs " + mat.c1 + " " + mat.c2 + "\nkeys " + mat.k1 + " " + mat.k2 + "\n"
+		if in.Mode == "namedmis" {
+			btext = "certs " + mat.c1 + " " + mat.c2 + "\nkeys " + mat.k1 + "\n"
+		}
+		bnodes, err := authkit.Nodes(btext)
+		if err != nil {
+			return out, err
+		}
+		mod, err := module.Get("tls.loader.file")("tls.loader.file", name, nil, nil)
+		if err != nil {
+			return out, err
+		}
+		module.RegisterInstance(mod, config.NewMap(nil, config.Node{Children: bnodes}))
+		head = "tls &" + name
 	case "bogus":
 		head = "tls nosuchloader " + mat.c1 + " " + mat.k1
 	case "odd":
